@@ -13,6 +13,7 @@
 -/
 import TypedpyModel.Lemmas.Sched
 import TypedpyModel.Generated.SharedWrites
+import TypedpyModel.Pinned.SharedWrites
 namespace Typedpy.C20
 open Typedpy.Sched
 
@@ -306,6 +307,9 @@ def knownFindingKeys : List String := [
 /-- every shared write in the CURRENT working tree is either harmless (every thread writes an equivalent value) or a
     listed finding.  A new shared scratch write breaks this obligation. -/
 theorem tables_ok : ∀ r ∈ Generated.sharedWrites, r.safe = true ∨ r.key ∈ knownFindingKeys := by decide
+
+/-- the same obligation on the committed snapshot of the table (keeps `Pinned/` compiled and reviewable) -/
+theorem pinned_tables_ok : ∀ r ∈ Pinned.sharedWrites, r.safe = true ∨ r.key ∈ knownFindingKeys := by decide
 
 /-- the table is not empty and really contains the racy site (non-vacuity of `tables_ok`) -/
 theorem tables_nonvacuous :
